@@ -239,6 +239,11 @@ func (channel *Channel) handleContentHeader(headerFrame *amqp.Frame) *amqp.Error
 		return amqp.NewConnectionError(amqp.FrameError, "error on parsing content header frame", 0, 0)
 	}
 
+	// a message without content has no body frames: it is complete now
+	if channel.currentMessage.Header.BodySize == 0 {
+		return channel.publishCurrentMessage()
+	}
+
 	return nil
 }
 
@@ -257,6 +262,11 @@ func (channel *Channel) handleContentBody(bodyFrame *amqp.Frame) *amqp.Error {
 		return nil
 	}
 
+	return channel.publishCurrentMessage()
+}
+
+// publishCurrentMessage routes the complete current message to its queues
+func (channel *Channel) publishCurrentMessage() *amqp.Error {
 	vhost := channel.conn.GetVirtualHost()
 	message := channel.currentMessage
 	channel.currentMessage = nil
